@@ -54,7 +54,8 @@ def count_loc(class_node: Any, source: str) -> int:
     """
     start_line = class_node.start_point[0]
     end_line = class_node.end_point[0]
-    return end_line - start_line + 1
+    lines = source.split("\n")[start_line : end_line + 1]
+    return sum(1 for line in lines if (s := line.strip()) and not s.startswith("//"))
 
 
 def _get_class_body(class_node: Any) -> Any:
